@@ -515,13 +515,13 @@ func crossGenFiles() map[string]string {
 		"zz-vgen-hist-optexec": pre("zz-vgen-hist-optexec", "@{exec_path} = /opt/vgen/optexec /opt/vgen/optexec-helper\n", "@{exec_path} ", "  /etc/hist r,\n"),
 		"ee-vgen-hist-execlit": mk("ee-vgen-hist-execlit", "  /opt/vgen/optexec-helper r,\n  owner @{HOME}/.local/opt/vgen/optexec rw,\n\n  #aa:exec zz-vgen-hist-optexec\n"),
 		// one exec directive naming two profiles that share an executable
-		"zz-vgen-hist-sharea":   pre("zz-vgen-hist-sharea", "@{exec_path} = /opt/vgen/shared /opt/vgen/only-a\n", "@{exec_path} ", "  /etc/hist r,\n"),
-		"zz-vgen-hist-shareb":   pre("zz-vgen-hist-shareb", "@{exec_path} = /opt/vgen/shared /opt/vgen/only-b\n", "@{exec_path} ", "  /etc/hist r,\n"),
+		"zz-vgen-hist-sharea":    pre("zz-vgen-hist-sharea", "@{exec_path} = /opt/vgen/shared /opt/vgen/only-a\n", "@{exec_path} ", "  /etc/hist r,\n"),
+		"zz-vgen-hist-shareb":    pre("zz-vgen-hist-shareb", "@{exec_path} = /opt/vgen/shared /opt/vgen/only-b\n", "@{exec_path} ", "  /etc/hist r,\n"),
 		"ff-vgen-hist-execshare": mk("ff-vgen-hist-execshare", "  /etc/host7 r,\n\n  #aa:exec zz-vgen-hist-sharea zz-vgen-hist-shareb\n"),
 		// a host with a sub-profile (closed by its own local include) in front of its stack directive
 		"hh-vgen-hist-stacksub": mk("hh-vgen-hist-stacksub", "  /etc/host8 r,\n\n  profile sub {\n    include <abstractions/base>\n\n    /etc/sub r,\n\n    include if exists <local/hh-vgen-hist-stacksub_sub>\n  }\n\n  #aa:stack zz-vgen-hist-target-ext\n"),
 		// an exec directive whose target has a quoted executable (a path with a blank)
-		"zz-vgen-hist-quoted":   pre("zz-vgen-hist-quoted", "@{exec_path} = /opt/vgen/plainexe \"/opt/Vgen App/vgen-app\"\n", "@{exec_path} ", "  /etc/hist r,\n"),
+		"zz-vgen-hist-quoted":     pre("zz-vgen-hist-quoted", "@{exec_path} = /opt/vgen/plainexe \"/opt/Vgen App/vgen-app\"\n", "@{exec_path} ", "  /etc/hist r,\n"),
 		"gg-vgen-hist-execquoted": mk("gg-vgen-hist-execquoted", "  /etc/host9 r,\n\n  #aa:exec zz-vgen-hist-quoted\n"),
 		// exec directives: default, explicit and two-target forms over the same targets
 		"aa-vgen-hist-exec1": mk("aa-vgen-hist-exec1", "  #aa:exec zz-vgen-hist-uselib\n"),
